@@ -198,6 +198,26 @@ def encodings(en, tier: str, seed: int) -> List[bytes]:
                         out.append(s[: ins.length()])
                     except Exception:      # noqa: BLE001
                         continue
+    # internal-memory operands that address a NAMED register directly are rendered by name ((BP), (PX), (PY), (KOL), (IMR), ...):
+    # every opcode behind the prefixes that give a slot direct addressing, with operand bytes that are register offsets
+    import text_ast
+    from binja_test_mocks.tokens import asm_str
+    names = tuple(f"({n})" for n in text_ast.IMEM_NAMES)
+    for pre in ([0x30, 0x32, 0x22, 0x36, 0x33] if tier == "quick" else [0x30, 0x31, 0x32, 0x33, 0x22, 0x26, 0x36, 0x34]):
+        for op in range(256):
+            if op in en.PRE_BYTES:
+                continue
+            for b2 in (0xED, 0xEE, 0xEC, 0xFB, 0x04):
+                for pal in ([0xEE, 0xED, 0xEC, 0xF0], [0xED, 0xEE, 0xFC, 0xFB], [0x10, 0xED, 0xEE, 0x00]):
+                    s = bytes([pre, op, b2] + pal)
+                    try:
+                        ins = decode(s + bytes(4), ADDR, OPCODES)
+                        if ins is None or type(ins).__name__ == "PRE":
+                            continue
+                        if any(n in asm_str(ins.render()) for n in names):
+                            out.append(s[: ins.length()])
+                    except Exception:      # noqa: BLE001
+                        continue
     seen = set()
     uniq = []
     for e in out:
